@@ -27,6 +27,147 @@ example : (setP (makeReadOnly (create St.empty [0] none) [0]) 0 0 5).2 = false :
 
 
 
+
+/-! ### `makeParametersReadOnly` as a walk over the whole reactor forest -/
+
+/-- `o` is `r` or lies below it in the child lists, at depth `k` (naive walk) -/
+inductive ReachN (kids : Nat → List Nat) : Nat → Nat → Nat → Prop where
+  | root {r : Nat} : ReachN kids 0 r r
+  | step {k r c m : Nat} : c ∈ kids r → ReachN kids k c m → ReachN kids (k + 1) r m
+
+private theorem foldl_setRO_readOnly (l : List Nat) : ∀ (s : St) (o : Nat),
+    (l.foldl setRO s).readOnly o = (decide (o ∈ l) || s.readOnly o)
+  := by
+  induction l with
+  | nil => intro s o; simp
+  | cons a rest ih =>
+    intro s o
+    simp only [List.foldl_cons, ih, setRO, upd]
+    by_cases h1 : o = a
+    · subst h1; simp
+    · simp [h1]
+
+private theorem foldl_setRO_frame (l : List Nat) : ∀ (s : St),
+    (l.foldl setRO s).vals = s.vals ∧ (l.foldl setRO s).assigned = s.assigned ∧ (l.foldl setRO s).backup = s.backup ∧
+    (l.foldl setRO s).cache = s.cache ∧ (l.foldl setRO s).grid = s.grid ∧ (l.foldl setRO s).dassigned = s.dassigned ∧
+    (l.foldl setRO s).serial = s.serial := by
+  induction l with
+  | nil => intro s; simp
+  | cons a rest ih => intro s; simp only [List.foldl_cons]; have := ih (setRO s a); simpa [setRO] using this
+
+/-- everything at depth `k ≥ 1` below `r` is returned by the deep traversal once the fuel reaches `k` -/
+private theorem iterDeep_complete (kids : Nat → List Nat) : ∀ (k fuel r m : Nat), ReachN kids (k + 1) r m → k + 1 ≤ fuel →
+    m ∈ iterDeep kids fuel r := by
+  intro k
+  induction k with
+  | zero =>
+    intro fuel r m h hk
+    cases fuel with
+    | zero => omega
+    | succ f =>
+      cases h with
+      | step hc hr => cases hr; simp [iterDeep, hc]
+  | succ k ih =>
+    intro fuel r m h hk
+    cases fuel with
+    | zero => omega
+    | succ f =>
+      cases h with
+      | step hc hr =>
+        simp only [iterDeep, List.mem_append, List.mem_flatMap]
+        exact Or.inr ⟨_, hc, ih f _ m hr (by omega)⟩
+
+/-- the walk marks exactly: the state is `makeReadOnly` over root + deep traversal (values, flags, back-ups,
+caches, grids, serials untouched) -/
+theorem makeReadOnlyTree_readOnly (s : St) (kids : Nat → List Nat) (fuel r o : Nat) :
+    (makeReadOnlyTree s kids fuel r).readOnly o = (makeReadOnly s (r :: iterDeep kids fuel r)).readOnly o := by
+  unfold makeReadOnlyTree
+  rw [foldl_setRO_readOnly]
+  simp only [setRO, upd, makeReadOnly, List.mem_cons]
+  by_cases h1 : o = r
+  · simp [h1]
+  · by_cases h2 : o ∈ iterDeep kids fuel r <;> simp [h1, h2]
+
+/-- **every object reachable from the reactor by a naive walk of the child lists -- in the core, in the spent fuel
+pool, in any other system, at any depth (up to the fuel, which the driver sets above the number of objects) -- is
+read-only after `makeParametersReadOnly`**, and no value, flag, back-up, cache, grid or serial changed -/
+theorem makeReadOnlyTree_reaches (s : St) (kids : Nat → List Nat) (fuel r : Nat) :
+    (∀ k m, ReachN kids k r m → k ≤ fuel → (makeReadOnlyTree s kids fuel r).readOnly m = true) ∧
+    (makeReadOnlyTree s kids fuel r).vals = s.vals ∧ (makeReadOnlyTree s kids fuel r).assigned = s.assigned ∧
+    (makeReadOnlyTree s kids fuel r).dassigned = s.dassigned ∧ (makeReadOnlyTree s kids fuel r).serial = s.serial := by
+  refine ⟨?_, ?_⟩
+  · intro k m h hk
+    rw [makeReadOnlyTree_readOnly]
+    cases k with
+    | zero => cases h; simp [makeReadOnly]
+    | succ k =>
+      have := iterDeep_complete kids k fuel r m h hk
+      simp [makeReadOnly, this]
+  · unfold makeReadOnlyTree
+    obtain ⟨h1, h2, _, _, _, h6, h7⟩ := foldl_setRO_frame (iterDeep kids fuel r) (setRO s r)
+    exact ⟨by rw [h1]; rfl, by rw [h2]; rfl, by rw [h6]; rfl, by rw [h7]; rfl⟩
+
+/-- the object an attempt addresses (for a scope: its objects) -/
+def Attempt.targets : Attempt → List Nat
+  | .set o _ _ => [o]
+  | .setC o _ _ _ => [o]
+  | .unlock o => [o]
+  | .enter objs => objs
+
+/-- one attempt on a state where one of its targets is read-only: refused, state unchanged -/
+theorem attempt_refused (s : St) (a : Attempt) (h : ∃ o ∈ a.targets, s.readOnly o = true) :
+    attempt s a = (s, false) := by
+  obtain ⟨o, ho, hro⟩ := h
+  cases a with
+  | set o' x v => simp [Attempt.targets] at ho; subst ho; simp [attempt, setP, hro]
+  | setC o' x v g => simp [Attempt.targets] at ho; subst ho; simp [attempt, setC, hro]
+  | unlock o' => simp [Attempt.targets] at ho; subst ho; simp [attempt, unlock, hro]
+  | enter objs =>
+    simp only [Attempt.targets] at ho
+    have : objs.any s.readOnly = true := List.any_eq_true.mpr ⟨o, ho, hro⟩
+    simp [attempt, tryEnter, this]
+
+/-- **after `makeParametersReadOnly(r)` ANY later sequence of attempts -- plain or custom-setter assignments, unlock
+attempts, opening retain-state scopes -- each addressing objects reachable from the reactor (any system, any depth
+within the fuel), is refused one by one and leaves the state exactly as it was** -/
+theorem readonly_tree_refuses (s : St) (kids : Nat → List Nat) (fuel r : Nat) (ops : List Attempt)
+    (h : ∀ a ∈ ops, a.targets ≠ [] ∧ ∀ o ∈ a.targets, ∃ k, ReachN kids k r o ∧ k ≤ fuel) :
+    ops.foldl (fun t a => (attempt t a).1) (makeReadOnlyTree s kids fuel r) = makeReadOnlyTree s kids fuel r ∧
+    ∀ a ∈ ops, (attempt (makeReadOnlyTree s kids fuel r) a).2 = false := by
+  have hro : ∀ a ∈ ops, ∀ o ∈ a.targets, (makeReadOnlyTree s kids fuel r).readOnly o = true := by
+    intro a ha o ho
+    obtain ⟨k, hk, hle⟩ := (h a ha).2 o ho
+    exact (makeReadOnlyTree_reaches s kids fuel r).1 k o hk hle
+  have hone : ∀ a ∈ ops, attempt (makeReadOnlyTree s kids fuel r) a = (makeReadOnlyTree s kids fuel r, false) := by
+    intro a ha
+    have hne := (h a ha).1
+    obtain ⟨o, ho⟩ := List.exists_mem_of_ne_nil _ hne
+    exact attempt_refused _ a ⟨o, ho, hro a ha o ho⟩
+  refine ⟨?_, fun a ha => by rw [hone a ha]⟩
+  clear hro h
+  induction ops with
+  | nil => rfl
+  | cons a rest ih =>
+    simp only [List.foldl_cons, hone a (by simp)]
+    exact ih (fun a' ha' => hone a' (by simp [ha']))
+
+/-- non-vacuity: reactor 0 with core 1 (assembly 3) and spent fuel pool 2 (assembly 4 with block 5): the object in
+the pool's assembly is reachable and refuses -/
+example :
+    let kids : Nat → List Nat := fun n => if n = 0 then [1, 2] else if n = 1 then [3] else if n = 2 then [4] else if n = 4 then [5] else []
+    let s0 := create (create (create (create (create (create St.empty [0] none) [0] none) [0] none) [0] none) [0] none) [0] none
+    (setP (makeReadOnlyTree s0 kids 7 0) 5 0 9).2 = false ∧ (makeReadOnlyTree s0 kids 7 0).readOnly 5 = true := by
+  decide
+
+/-- the walk must start at the REACTOR: marking only what lies below the core (child 1) leaves the pool's objects
+writable -- an assignment there is accepted and changes a value -/
+example :
+    let kids : Nat → List Nat := fun n => if n = 0 then [1, 2] else if n = 1 then [3] else if n = 2 then [4] else if n = 4 then [5] else []
+    let s0 := create (create (create (create (create (create St.empty [0] none) [0] none) [0] none) [0] none) [0] none) [0] none
+    let t := setRO (setRO (makeReadOnlyTree s0 kids 7 1) 0) 2
+    (setP t 5 0 9).2 = true ∧ (setP t 5 0 9).1.vals 5 0 = 9 := by
+  decide
+
 /-- the per-object slice of the state -/
 structure PO where
   vals : Nat → Nat
@@ -455,6 +596,24 @@ theorem cache_grid_restored (objs keep : List Nat) (body : Prog) (hnd : objs.Nod
       cases ht : t.grid with
       | none => rw [ht] at s4; simp at s4
       | some g' => simp [s3]
+
+
+/-- **material caches do not leak either**: `StateRetainer` walks the composite, its own material and
+`iterChildrenWithMaterials(deep=True)`; a material is an object without parameter definitions and grid, listed among
+the scope's objects (`objs ++ mats`).  Whatever the body caches on it -- and whatever nested scopes (over objects,
+materials or both) it opens -- after the scope the material's cache and its back-up chain are the entry ones, and
+inside the scope its cache started empty. -/
+theorem material_cache_restored (objs mats keep : List Nat) (body : Prog) (hnd : (objs ++ mats).Nodup) (hw : WF body)
+    (s : St) (m : Nat) (hm : m ∈ mats) :
+    (enter s (objs ++ mats)).cache m = (fun _ => none) ∧
+    (run (.scope (objs ++ mats) keep body) s).cache m = s.cache m ∧
+    (run (.scope (objs ++ mats) keep body) s).cacheBk m = s.cacheBk m := by
+  obtain ⟨h1, h2, _, h4, _⟩ := cache_grid_restored (objs ++ mats) keep body hnd hw s m (by simp [hm])
+  exact ⟨h1, h2, h4⟩
+
+example : (run (.scope ([0] ++ [1]) [] (.seq (.cacheSet 1 0 7) (.scope [1] [] (.cacheSet 1 1 8)))) St.empty).cache 1 0 = none := by
+  decide
+
 
 /-- objects outside the scope are not touched by entering or leaving it -/
 theorem scope_frame (objs keep : List Nat) (body : Prog) (hnd : objs.Nodup) (s : St) (o : Nat) (ho : o ∉ objs) :
